@@ -283,6 +283,9 @@ impl<T> Handle<T> {
         // function will lock the new subscriber.
         drop(lock);
 
+        #[cfg(tokio_rs_tracing_verif)]
+        tracing_core::verif::yield_point("reload::modify::after_unlock");
+
         callsite::rebuild_interest_cache();
 
         // If the `log` crate compatibility feature is in use, set `log`'s max
